@@ -23,7 +23,8 @@ pub fn def() -> PropDef {
                build, and under AddressSanitizer when the nightly toolchain provides it; a worker crash is a \
                violation. Histories also set absurd chunk sizes (usize::MAX - k: the refill panics, the window must \
                survive). The parsers' raw 8-byte loads are covered by running the C01 comparison (one-shot versus \
-               re-chunked, all input classes) in the same three builds. Non-trivial: at least one caught panic followed by >= 2 further observed operations.",
+               re-chunked, all input classes) in the same three builds, the format writers' use of the buffer by \
+               writing generated documents with a chosen token 0..45 bytes in front of the buffer end. Non-trivial: at least one caught panic followed by >= 2 further observed operations.",
         assumptions: &[
             "reads of stale bytes inside the reader's own allocation are only caught when they change an observable result",
             "AddressSanitizer shards run only if `cargo +nightly build -Zsanitizer=address` works in the sandbox (reported in notes otherwise)",
@@ -84,7 +85,16 @@ pub fn check_parsers(c: &crate::props::c01::Case, obs: &mut Obs) -> CheckResult 
     Ok(())
 }
 
+/// The format writers place numbers and codes into the buffer next to its end (the C03 oracle
+/// `forward-at-buffer-end`); here it runs in all three builds: a write one byte past the buffer
+/// is a debug assertion in one, a sanitizer report in another.
+pub fn check_writers(c: &crate::props::c03::AtEnd, obs: &mut Obs) -> CheckResult {
+    crate::props::c03::check_at_buffer_end(c, obs).map_err(|f| Failure::new(format!("C14:writers:{}", f.sig), f.detail))
+}
+
 fn run(ctx: &Ctx) {
+    let n = ctx.share(ctx.tier.pick(120_000, 3_000_000));
+    ctx.run_cases("writers-at-buffer-end", n, crate::props::c03::at_end_strategy(), check_writers);
     let n = ctx.share(ctx.tier.pick(120_000, 3_000_000));
     let strat = (crate::inputs::input_strategy(10, true), crate::source::parser_feed_strategy())
         .prop_map(|(input, feed)| crate::props::c01::Case { input, feed });
@@ -105,6 +115,10 @@ fn run(ctx: &Ctx) {
 
 fn replay(oracle: &str, v: &Value) -> Option<CheckResult> {
     match oracle {
+        "writers-at-buffer-end" => Some(match replay_from_file::<crate::props::c03::AtEnd>(v) {
+            Ok(c) => check_writers(&c, &mut Obs::default()),
+            Err(e) => Err(Failure::new("C14:decode", e)),
+        }),
         "parsers" => Some(match replay_from_file::<crate::props::c01::Case>(v) {
             Ok(c) => check_parsers(&c, &mut Obs::default()),
             Err(e) => Err(Failure::new("C14:decode", e)),
